@@ -92,9 +92,10 @@ FramingLines(idx, clen, pos, nm) ==
   IF clen < 0 THEN Lines(idx)
   ELSE IF pos = 0 THEN <<CLenLine(nm, clen, CRLF)>> \o Lines(idx) ELSE Lines(idx) \o <<CLenLine(nm, clen, CRLF)>>
 ChoicesFraming == {1, 6} \X (UNION { [1..k -> {1, 8, 11, 14, 19, 33}] : k \in 1..(IF K > 2 THEN 2 ELSE K) })
-                  \X {-1, 0, 2, 3, 4, 12, 13, 600, 65536, 65539, 65548, 131075} \X {0, 1} \X {N_CLen, N_l} \X (1..Len(Bodies)) \X (0..7) \X {CRLF, LFONLY}
+                  \X {-1, 0, 2, 3, 4, 12, 13, 600, 65536, 65539, 65548, 131075} \X {0, 1} \X {N_CLen, N_l} \X (1..Len(Bodies)) \X (0..7) \X {CRLF, LFONLY} \X {64, 1}
 \* (the blank line is CRLF or a lone LF -- the latter also as the very last byte of the buffer when the body is empty)
-MsgFraming(x) == GenMsg(0, 34, FLs[x[1]], CRLF, FramingLines(x[2], x[3], x[4], x[5]), x[8], Bodies[x[6]], x[3], x[7], 64)
+\* (header capacity 64 or 1: the framing must not depend on whether the Content-Length header fits the caller's array)
+MsgFraming(x) == GenMsg(0, 34, FLs[x[1]], CRLF, FramingLines(x[2], x[3], x[4], x[5]), x[8], Bodies[x[6]], x[3], x[7], x[9])
 
 \* slice "caps": header capacity smaller than the number of headers (stored prefix, total count): C07 / C13
 ChoicesCaps == (UNION { [1..k -> {1, 5, 8, 11, 14, 19, 20, 27, 30, 33, 35, 44, 45, 46}] : k \in 1..K }) \X {-1, 0, 1, 2}
